@@ -71,6 +71,7 @@ var propCfgs = map[string]propCfg{
 	"C11": {Level: "exploration", Quick: tierCfg{Runs: 4000, BudgetS: 40, MinS: 30}, Thorough: tierCfg{Runs: 400000, BudgetS: 600, MinS: 120}},
 	"C30": {Level: "exploration", Quick: tierCfg{Runs: 40000, BudgetS: 40, MinS: 30}, Thorough: tierCfg{Runs: 4000000, BudgetS: 600, MinS: 120}},
 	"C06": {Level: "exploration", Quick: tierCfg{Runs: 40000, BudgetS: 40, MinS: 30}, Thorough: tierCfg{Runs: 4000000, BudgetS: 600, MinS: 120}},
+	"C31": {Level: "exploration", Quick: tierCfg{Runs: 40000, BudgetS: 40, MinS: 30}, Thorough: tierCfg{Runs: 4000000, BudgetS: 600, MinS: 120}},
 	"C05": {Level: "fault_enumeration", Quick: tierCfg{Runs: 96, BudgetS: 35, MinS: 30}, Thorough: tierCfg{Runs: 4000, BudgetS: 600, MinS: 120}},
 }
 
